@@ -133,11 +133,17 @@ def setupV : P String := do
     else failure : P (Option (List Float × List Float)))
   pure (stepOut c { dtProposed := 0, dt := 0, xNew := [], st := setupState c s a eq })
 
+/-- kwn.reset cfg state → same answer format as a step (dtProposed = dt = 0, no xNew) -/
+def resetV : P String := do
+  let c ← cfg; let s ← state
+  pure (stepOut c { dtProposed := 0, dt := 0, xNew := [], st := resetState c s })
+
 def handle (verb : String) : Option (P String) :=
   match verb with
   | "kwn.estep" => some estep
   | "kwn.rstep" => some rstep
   | "kwn.setup" => some setupV
+  | "kwn.reset" => some resetV
   | _ => none
 
 end KawinV.Drv.KWNFull
